@@ -1,6 +1,7 @@
 package main
 
 import (
+	"github.com/bluenviron/gomavlib/v3"
 	"bytes"
 	"errors"
 	"fmt"
@@ -162,6 +163,9 @@ func execOp(line string) {
 
 	case "swrite":
 		emit(line, safely(func() string { return implSwrite(t) }))
+
+	case "nwrite":
+		emit(line, safely(func() string { return implNwrite(t) }))
 
 	case "lifecheck":
 		// the answer is the observed trace: the scenario is re-run
@@ -420,6 +424,102 @@ func implSwrite(t []string) string {
 		}
 		lastTs = ts
 		res = append(res, "ok:"+o)
+	}
+	return strings.Join(res, " ")
+}
+
+// nwrite <dialect> <ver> <sys> <comp> <link> <key> <items>: the same write history through a NODE with one channel
+// (Node.WriteMessageAll -> node loop -> channel writer -> stream writer). Only what reaches the wire can be observed:
+// the answer is the list of emitted frames; refused items leave no trace (and must not consume a sequence number). The last
+// item is always encodable: when it has reached the transport, everything before it has been dealt with (FIFO).
+// The link id is chosen by the channel at random: it must be the same on every signed frame of the channel; it is then
+// replaced by the nominal one of the op (signature recomputed by the reference formula) for comparison.
+func implNwrite(t []string) string {
+	conn := newMemConn(nil)
+	ver := gomavlib.V2
+	if atoiU(t[2]) == 1 {
+		ver = gomavlib.V1
+	}
+	n := &gomavlib.Node{Endpoints: []gomavlib.EndpointConf{gomavlib.EndpointCustom{ReadWriteCloser: conn}}, Dialect: getDialect(t[1]),
+		OutVersion: ver, OutSystemID: byte(atoiU(t[3])), OutComponentID: byte(atoiU(t[4])), OutKey: keyOf(t[6]), HeartbeatDisable: true}
+	if atoiU(t[2]) != 1 && atoiU(t[2]) != 2 {
+		n.OutVersion = 0
+	}
+	if err := n.Initialize(); err != nil {
+		return "init-err"
+	}
+	opened := make(chan struct{})
+	go func() {
+		first := true
+		for e := range n.Events() {
+			if _, ok := e.(*gomavlib.EventChannelOpen); ok && first {
+				first = false
+				close(opened)
+			}
+		}
+	}()
+	select {
+	case <-opened:
+	case <-time.After(5 * time.Second):
+		n.Close()
+		return "channel-not-open"
+	}
+	items := strings.Split(t[7], ";")
+	before := time.Now()
+	for _, it := range items {
+		p := strings.SplitN(it, "@", 2)
+		m := decMsg(p[0], getDialect(t[1]))
+		n.WriteMessageAll(m) //nolint  a refusal is part of the history
+	}
+	// the last item is encodable: wait for the wire to go quiet after at least one frame
+	deadline := time.Now().Add(5 * time.Second)
+	last, stable := -1, 0
+	for time.Now().Before(deadline) && (stable < 25 || last == 0) {
+		c := len(conn.snapshotWrites())
+		if c == last {
+			stable++
+		} else {
+			stable, last = 0, c
+		}
+		time.Sleep(2 * time.Millisecond)
+	}
+	after := time.Now()
+	writes := conn.snapshotWrites()
+	n.Close()
+	var res []string
+	lastTs := uint64(0)
+	link := -1
+	// nominal times: the i-th EMITTED frame is compared with the i-th accepted item of the model, stamped with that item's time;
+	// the harness cannot know which items were accepted, so all items of an nwrite op carry the same nominal time
+	nominal := strings.SplitN(items[0], "@", 2)[1]
+	for _, b := range writes {
+		if keyOf(t[6]) != nil && len(b) >= 13 && b[0] == 0xFD && b[2]&1 != 0 {
+			l := int(b[len(b)-13])
+			if link == -1 {
+				link = l
+			} else if l != link {
+				res = append(res, "LINK-ID-CHANGED")
+				continue
+			}
+			c := append([]byte(nil), b...)
+			want := refSignature(keyOf(t[6])[:], c[:len(c)-6])
+			if !bytes.Equal(want, c[len(c)-6:]) {
+				res = append(res, "BAD-SIGNATURE")
+				continue
+			}
+			c[len(c)-13] = byte(atoiU(t[5]))
+			copy(c[len(c)-6:], refSignature(keyOf(t[6])[:], c[:len(c)-6]))
+			b = c
+		}
+		o, ts := normaliseSigned(b, nominal, keyOf(t[6]), before, after)
+		if ts < lastTs {
+			o = fmt.Sprintf("TS-DECREASED(%d<%d)", ts, lastTs)
+		}
+		lastTs = ts
+		res = append(res, "ok:"+o)
+	}
+	if len(res) == 0 {
+		return "-"
 	}
 	return strings.Join(res, " ")
 }
